@@ -15,6 +15,7 @@ import (
 	"hash/fnv"
 	"io"
 	"math/rand/v2"
+	"net/http"
 	"os"
 	"reflect"
 	"runtime"
@@ -1035,6 +1036,75 @@ func TestVerifC20Hazard(t *testing.T) {
 	_ = d.Close()
 	out.Put(map[string]any{"enc": "zstd", "then": "alloc", "ret": r1, "err": e1, "message_bytes": len(msg),
 		"allocated_mib": (m1.TotalAlloc - m0.TotalAlloc) >> 20})
+}
+
+// TestVerifC20Volume: one compressor and one decompressor per encoding, reused the way the RPC
+// library's pools reuse them (Reset, use, Close, Reset on an empty source) for VERIF_MIB MiB of
+// messages - a large one and a small one in turn.  Compress.tla puts no bound on how much has gone
+// through an instance: message k must come back exactly, whatever k.
+func TestVerifC20Volume(t *testing.T) {
+	out, err := verifutil.NewOut(verifutil.Env("VERIF_OUT", "volume.ndjson"))
+	if err != nil {
+		t.Fatal(err)
+	}
+	defer out.Close()
+	mib := verifutil.EnvInt("VERIF_MIB", 160)
+	big := c20Bytes(81, 1<<20, true)
+	small := []byte("a small valid message")
+	for _, enc := range c20Encs {
+		c, err := GetCompressor(c20Enum[enc])
+		if err != nil {
+			t.Fatal(err)
+		}
+		d, err := GetDecompressor(c20Enum[enc])
+		if err != nil {
+			t.Fatal(err)
+		}
+		rec := map[string]any{"enc": enc, "volume": true, "rounds": 0, "mib": 0, "ret": "ok", "err": "", "at": ""}
+		total := 0
+		for round := 0; total < mib<<20; round++ {
+			payload := big
+			if round%2 == 1 {
+				payload = small
+			}
+			var wire bytes.Buffer
+			ret, errText := c20Call(func() error {
+				c.Reset(&wire)
+				if _, err := c.Write(payload); err != nil {
+					return err
+				}
+				return c.Close()
+			})
+			at := "compress"
+			if ret == "ok" {
+				at = "decompress"
+				ret, errText = c20Call(func() error {
+					if err := d.Reset(bytes.NewBuffer(wire.Bytes())); err != nil {
+						return err
+					}
+					var got bytes.Buffer
+					if _, err := got.ReadFrom(d); err != nil {
+						return err
+					}
+					if !bytes.Equal(got.Bytes(), payload) {
+						return fmt.Errorf("verif: %d bytes came back for a message of %d bytes (or other content)", got.Len(), len(payload))
+					}
+					if err := d.Close(); err != nil {
+						return err
+					}
+					_ = d.Reset(http.NoBody) // the pool ignores what this reports (gzip: EOF, there is no header to read)
+					return nil
+				})
+			}
+			total += len(payload)
+			rec["rounds"], rec["mib"] = round+1, total>>20
+			if ret != "ok" {
+				rec["ret"], rec["err"], rec["at"] = ret, errText, fmt.Sprintf("%s of message #%d (%d bytes)", at, round+1, len(payload))
+				break
+			}
+		}
+		out.Put(rec)
+	}
 }
 
 // ---------------------------------------------------------------- code -> spec
